@@ -18,6 +18,7 @@ type stubTransport struct {
 	writes   [][]byte
 	nwrite   int
 	failAt   map[int]bool // 1-based write numbers that fail
+	failPrefix string     // a write whose payload begins like this fails (it is neither counted nor recorded)
 	pings    int
 	pingFail map[int]bool
 	closes   int
@@ -95,6 +96,10 @@ func (s *stubTransport) Ping() error {
 func (s *stubTransport) Read(p []byte) (int, error) { return 0, io.EOF }
 func (s *stubTransport) Write(p []byte) (int, error) {
 	s.mu.Lock()
+	if s.failPrefix != "" && bytes.HasPrefix(p, []byte(s.failPrefix)) {
+		s.mu.Unlock()
+		return 0, errors.New("stub: write failed (broken pipe)")
+	}
 	s.nwrite++
 	n := s.nwrite
 	if s.failAt[n] {
